@@ -210,3 +210,8 @@ pub fn check_roundtrip(c: &mut Case, b: &[u8], kinds: &[u8], pristine: bool) {
     c.sig_of(&(version, if pristine { ks } else { vec![255] }, n_untrusted.min(7), has_mac, e1.len() != b.len()));
     c.sample(|| json!({"input_hex": hex(&b[..b.len().min(120)]), "e1_len": e1.len(), "input_len": b.len()}));
 }
+
+/// byte-driven entry (libFuzzer tier / `verif-driver bytes C24 <file>`)
+pub fn fuzz_bytes(c: &mut Case, data: &[u8]) {
+    check_roundtrip(c, data, &[], false);
+}
